@@ -245,6 +245,13 @@ func execute(w coraza.WAF, c cfg, hist []int, report func(sig, text string)) (ke
 			tx.ProcessResponseHeaders(200, "HTTP/1.1")
 		}
 		tv := tx.(plugintypes.TransactionState).Variables()
+		// a reader handed out before any body byte arrives (connectors may do that)
+		var early io.Reader
+		if c.Side == "req" {
+			early, _ = tx.RequestBodyReader()
+		} else {
+			early, _ = tx.ResponseBodyReader()
+		}
 		for i, oi := range hist {
 			o := ops[oi]
 			data := stream(m.offered, o.n)
@@ -316,6 +323,11 @@ func execute(w coraza.WAF, c cfg, hist []int, report func(sig, text string)) (ke
 			}
 			if m.phaseRan == 1 {
 				checkBodyVar(c, tv, m, report)
+			}
+		}
+		if early != nil && len(hist) > 0 {
+			if got := probe.ReadAll(early, nil); got != fmt.Sprintf("%q", m.stored) {
+				report("early-reader-differs:"+spillClass(c), fmt.Sprintf("a body reader obtained before the writes yields %s at the end, the bytes supplied up to the limit are %q (limit %d, memory limit %d)", got, m.stored, c.lim(), c.M))
 			}
 		}
 		// the body phase, then the variables rules see
